@@ -40,6 +40,7 @@ class Ctx:
         self.key = None  # workload-defined distinctness key (else the digest)
         self.nontrivial = False
         self.worlds = []
+        self.distinct = set()  # workload-defined state hashes (e.g. crash states)
         self.sim_time = 0.0
         self._nroot = 0
 
@@ -151,6 +152,7 @@ def execute(prop, workload, seed=None, replay=None, params=None, keep_trace=True
         "nops": sum(ops.values()),
         "sim_time": ctx.sim_time,
         "wall": time.perf_counter() - t0,
+        "distinct": sorted(ctx.distinct)[:4000],
     })
     if keep_trace:
         out["trace"] = ctx.trace[:400]
@@ -183,7 +185,7 @@ def _worker(args):
             "nontrivial": o["nontrivial"], "fired": o["fired"],
             "probes": o["probes"], "stats": o["stats"], "nops": o["nops"],
             "sim_time": o["sim_time"], "wall": o["wall"],
-            "tape_len": o["tape_len"],
+            "tape_len": o["tape_len"], "distinct": o["distinct"],
             "violation": o["violation"], "harness_error": o["harness_error"],
         }
         if o["violation"] is not None or o["harness_error"]:
